@@ -5,7 +5,8 @@ Model (docs/ISA.md "Frame and global layout"): a scalar takes one cell of its
 type; a record the concatenation of its fields; a static array
 [reserved, rank, element size, lb1, ub1, ...] followed by the elements in
 row-major order; a dynamic / `()` array one cell holding a reference; a
-parameter one cell holding a reference.
+parameter (of any type, records and arrays included) one cell holding a
+reference.
 """
 import re
 
@@ -148,23 +149,18 @@ class Layout:
 
     def segment(self, entries, nparams_cells=0):
         """-> (cells, var_at, nparams) for a list of (typ, name) entries.
-        The first entries whose implementation sizes add up to nparams_cells
-        are parameters: one reference cell each (extra cells the
-        implementation reserves for a record parameter are ('pad',))."""
+        Every parameter occupies one cell holding a reference, so the first
+        `nparams_cells` entries (the `p` operand of `frame p,l`) are the
+        parameters; the rest are locals laid out by type size."""
         cells = []
         var_at = {}
-        acc = 0
-        k = 0
-        while acc < nparams_cells and k < len(entries):
-            typ, name = entries[k]
-            sz = self.size(typ)
+        k = nparams_cells
+        if k > len(entries):
+            raise LayoutError(f'frame pops {k} argument cells, the routine declares '
+                              f'{len(entries)} variables in all')
+        for typ, name in entries[:k]:
             var_at[len(cells)] = ('param', typ, name)
             cells.append(('par', typ))
-            cells.extend([('pad',)] * (sz - 1))
-            acc += sz
-            k += 1
-        if acc != nparams_cells:
-            raise LayoutError('parameter area does not end on a variable')
         for typ, name in entries[k:]:
             var_at[len(cells)] = ('var', typ, name)
             cells.extend(self.var_cells(typ))
